@@ -59,8 +59,10 @@ ASSUMPTIONS = [
     'c_append, c_reset, c_set_view as documented',
     'two particle arrays stand for "several" in the per-array loops that '
     'are unrolled (cell size, bounds, update)',
-    'glue (mathematics, not machine-checked): push-front lists built from '
-    'empty lists hold exactly the binned particles of their cell, each once',
+    'glue lemma (push-front lists built from empty lists hold exactly the '
+    'binned particles of their cell, each once): lemmas/PushFront.lean, '
+    'compiled by Lean 4 + Mathlib in the thorough tier only; the quick tier '
+    'checks that it is stated without sorry',
     'single thread; std::sort / sort_gids permutes the appended segment',
 ]
 TRUSTED = ['z3 nonlinear arithmetic and quantifier instantiation']
@@ -68,7 +70,7 @@ TRUSTED = ['z3 nonlinear arithmetic and quantifier instantiation']
 
 def tasks(tier):
     t = ['arith', 'stencil', 'cellsize', 'bounds', 'ncells', 'sound', 'update', 'context', 'query', 'complete', 'list', 'repoint', 'zrows', 'sortseg', 'sortflag',
-            'oracle']
+            'lemma', 'oracle']
     return t + ['canary']
 
 
@@ -82,6 +84,12 @@ def run_task(task, ctx):
                                 queries=0, backends={}, seconds=0,
                                 failing=[], replay=None, info=''))
         return
+    if task == 'lemma':
+        from contracts import deps
+        return deps.lean_lemma(ctx, 'PushFront.lean', [
+            'repr_step', 'lists_content', 'lists_nodup', 'repr_build',
+            'linked_list_represents_cells'],
+            'lemma.push_front_lists_hold_exactly_the_binned_particles')
     return globals()['task_' + task](ctx, repo)
 
 
